@@ -12,7 +12,8 @@ EXTENDS Treasury, TLC, Json, SequencesExt
 CONSTANTS MaxAllow,      \* max number of routes in an allow-list
           MaxAllowLen,   \* max length of an allow-listed route
           MaxCandLen,    \* max length of a candidate route
-          Senders, EmitTests
+          Senders, EmitTests,
+          ReconfMax      \* the allow-list is replaced a second time only where it holds at most this many routes
 VARIABLES t, phase, sid, par,
           prev   \* history: the allow-list that was replaced (part of the VIEW, so that what follows a replacement is explored
                  \* for EVERY former list, not only for the first one TLC happens to reach the new list from)
@@ -76,7 +77,7 @@ Configure == /\ phase = 0 /\ phase' = 1 /\ UNCHANGED prev
 \* ... and ONE later replacement of the allow-list by the admin: what was allowed before and is not any more must be
 \* refused from then on (phase 2 offers the same swaps / spends as phase 1)
 Shrunk(rs) == ({<< >>} \cup {<<rs[i]>> : i \in DOMAIN rs}) \ {rs}
-Reconfigure == /\ phase = 1 /\ phase' = 2 /\ prev' = t.routes
+Reconfigure == /\ phase = 1 /\ phase' = 2 /\ prev' = t.routes /\ Len(t.routes) <= ReconfMax
                /\ \E al \in Shrunk(t.routes) :
                     Do([m |-> "t_update_config", s |-> t.admin, has_trader |-> FALSE, trader |-> "", tvalid |-> TRUE,
                         has_routes |-> TRUE, routes |-> al])
